@@ -1790,8 +1790,11 @@ writer_recurse_struct_or_dict_entry (DBusTypeWriter   *writer,
         return FALSE;
     }
 
+  /* The typecode goes into the type string, which the preallocation
+   * above (of the value string) does not cover: this can run out of
+   * memory, and nothing has been modified yet if it does */
   if (!write_or_verify_typecode (sub, begin_char))
-    _dbus_assert_not_reached ("failed to insert struct typecode after prealloc");
+    return FALSE;
 
   if (writer->enabled)
     {
